@@ -272,8 +272,37 @@ def _handle_fill(rep, m_, kind):
     for nm in names:
         if any(isinstance(v, ast.Call) and dotted(v.func) in ("np.zeros", "np.empty", "np.full") for v in assigns.get(nm, [])):
             filled = nm
+    comp_fill = None
+    if filled is None:
+        # or: result = np.array(<comprehension over the handle's elements>)
+        for r in rets:
+            for nm in [x.id for x in ast.walk(r.value) if isinstance(x, ast.Name)] if r.value is not None else []:
+                for v in assigns.get(nm, []):
+                    if isinstance(v, ast.Call) and dotted(v.func) in ("np.array", "np.asarray") and v.args and isinstance(v.args[0], ast.ListComp):
+                        filled, comp_fill = nm, v.args[0]
     if filled is None:
         rep.undecided(f"{construct}: no returned array allocated by np.zeros/np.empty found")
+        return
+    if comp_fill is not None:
+        # [[values[v.name] for v in row] for row in handle._variables]  /  [values[v.name] for v in handle._variables]
+        def is_values(e):
+            return src(_resolve_local(e, assigns)) == "self.values"
+        outer = comp_fill
+        g0 = outer.generators[0]
+        okc = False
+        if kind == "matrix" and isinstance(outer.elt, ast.ListComp) and len(outer.generators) == 1 and not g0.ifs and src(g0.iter) == f"{handle}._variables":
+            inner = outer.elt
+            g1 = inner.generators[0]
+            okc = len(inner.generators) == 1 and not g1.ifs and src(g1.iter) == src(g0.target) and isinstance(inner.elt, ast.Subscript) and is_values(inner.elt.value) and src(inner.elt.slice) == f"{src(g1.target)}.name"
+        if kind == "vector" and len(outer.generators) == 1 and not g0.ifs and src(g0.iter) == f"{handle}._variables":
+            okc = isinstance(outer.elt, ast.Subscript) and is_values(outer.elt.value) and src(outer.elt.slice) == f"{src(g0.target)}.name"
+        if not okc:
+            rep.undecided(f"{construct}: the returned array is built by a comprehension this rule cannot read")
+            return
+        rep.ob("R07.4", construct, True, "the array is built position by position from the handle's own element grid", loc=m_.loc, detail="position")
+        for r in rets:
+            okr = isinstance(r.value, ast.Name) and r.value.id == filled
+            rep.ob("R07.4", construct, okr, "every return hands out the array filled by name lookup" if okr else f"returns `{src(r.value)[:60]}`: the array looked up position by position from the handle's own element grid is re-arranged before it is returned (the handle's grid already has the handle's layout, e.g. a transpose view stores its elements transposed)", loc=f"{m_.module.rel}:{r.lineno}", detail=f"return:{'filled' if okr else src(r.value)[:30]}")
         return
     for r in rets:
         okr = isinstance(r.value, ast.Name) and r.value.id == filled
